@@ -82,6 +82,19 @@ fn main() {
             out.flush().unwrap();
             eprintln!("drive {}: {} cases", topic, written);
         }
+        "child" => {
+            // one case on stdin, its observation on stdout
+            std::thread::spawn(|| {
+                std::thread::sleep(std::time::Duration::from_secs(60));
+                std::process::exit(97);
+            });
+            let mut line = String::new();
+            std::io::stdin().read_line(&mut line).unwrap();
+            let j: J = serde_json::from_str(&line).expect("case json");
+            let c = run::Case::from_json(&j).expect("case");
+            let mut rng = rng::Rng::new(seed);
+            println!("{}", run::run_case(&c, &mut rng));
+        }
         "consts" => {
             println!("ts_min {} ts_max {} ns_max {}", chrono::DateTime::<chrono::Utc>::MIN_UTC.timestamp(), chrono::DateTime::<chrono::Utc>::MAX_UTC.timestamp(), chrono::DateTime::<chrono::Utc>::MAX_UTC.timestamp_subsec_nanos());
             println!("dur_max_ms {} dur_min_ms {}", chrono::Duration::MAX.num_milliseconds(), chrono::Duration::MIN.num_milliseconds());
